@@ -49,7 +49,8 @@ def plan(tier, seed):
                  'conflicts_refused', 'undeclare_calls',
                  'undeclare_refused', 'held_across_change',
                  'quiescent_checks', 'declare_calls_with_repeated_names',
-                 'histories_with_nested_names'],
+                 'histories_with_nested_names',
+                 'declarations_with_permuted_levels'],
         assumptions=['add_var(name, level) is exercised with the '
                      "variable's own level, the next bottom level or a "
                      'conflicting one (explicit levels leaving a gap are '
@@ -325,6 +326,32 @@ def random_(ctx, spec):
         if first_new:
             w._respace(list(w.sp.names) + first_new)
         return ('declare-many', tuple(args))
+    def s_declare_permuted():
+        # several new variables, each with an explicit level, given in
+        # an arbitrary sequence of the free levels n .. n+k-1 (gaps exist
+        # in between, as when a constructor or a loader declares
+        # variables one at a time; judged when the batch is complete)
+        room = 7 - len(w.sp.names)
+        if room < 2:
+            return ('declare-permuted-skip',)
+        k = rng.randint(2, min(room, 3))
+        new = [next(w.fresh_names) for _ in range(k)]
+        n = len(w.raw.vars)
+        lv = list(range(n, n + k))
+        rng.shuffle(lv)
+        for v, l in zip(new, lv):
+            got = w.bdd.add_var(v, l)
+            if got != l:
+                raise Violation('add_var', 'wrong-level-for-declaration',
+                                dict(var=v, got=got, want=l))
+        ctx.counters['declarations_with_permuted_levels'] += 1
+        want = dict(zip(new, lv))
+        if {v: w.raw.vars.get(v) for v in new} != want:
+            raise Violation('add_var', 'wrong-level-for-declaration',
+                            dict(want=want, vars=dict(w.raw.vars)))
+        w._respace(list(w.sp.names) + new)
+        return ('declare-permuted', tuple(zip(new, lv)))
+    w.s_declare_permuted = s_declare_permuted
     w.s_declare_many = s_declare_many
     w.s_conflict = s_conflict
     w.s_redeclare = s_redeclare
@@ -335,7 +362,8 @@ def random_(ctx, spec):
                 reorder_to=1, declare=7,
                 undeclare_subset=6 if kind == 'bdd' else 0, conflict=3,
                 redeclare=3, undeclare_bad=3 if kind == 'bdd' else 0,
-                canon=2, clone=2 if kind == 'bdd' else 0, declare_many=3)
+                canon=2, clone=2 if kind == 'bdd' else 0, declare_many=3,
+                declare_permuted=3)
     for k in range(spec['steps']):
         names_before = set(w.raw.vars)
         held = bool(w.pool)
